@@ -68,7 +68,11 @@ def install(ctx):
 def one_case(ctx, time, rate, accel, jerk):
     from plotink import ebb_calc
     try:
-        ebb_calc.max_rate_t3(time, rate, accel, jerk)
+        if (time + rate) % 11 == 0:
+            G.by_keyword(ebb_calc.max_rate_t3, (time, rate, accel, jerk))
+            ctx.tag("arguments passed by keyword")
+        else:
+            ebb_calc.max_rate_t3(time, rate, accel, jerk)
     except Exception as exc:
         ctx.violation("exception", {"fn": "max_rate_t3", "args": [time, rate, accel, jerk],
                                     "exception": repr(exc)})
@@ -144,7 +148,7 @@ def run(ctx):
             if S.tick_t3(time, rate, accel, jerk, 0)[3] != S.t3_peak(rate, accel, jerk, time):
                 ctx.oracle_fault("peak from vertex neighbours != brute force", [time, rate, accel, jerk])
         done += 1
-    for cls in NEEDED:
+    for cls in NEEDED + ["arguments passed by keyword"]:
         ctx.need(cls, 100)
     ctx.need("monitor:max_rate_t3 evaluated", 50_000)
     ctx.need("oracle self-check (all ticks brute force)", 1000)
